@@ -138,6 +138,12 @@ func init() {
 			x.st.Evaluations += 8
 		}
 		// (3) ToUpperLower / FoldMap against the toolchain
+		var later []func() // findings without an API-level input are reported after those with one
+		defer func() {
+			for _, f := range later {
+				f()
+			}
+		}()
 		for r := lo; r <= hi; r++ {
 			u, l, _ := strcase.VerifToUpperLower(r)
 			wu, wl := r, r
@@ -163,6 +169,56 @@ func init() {
 					if !set[m] {
 						x.tableFail(r, m, "FoldMap entry misses an orbit member")
 					}
+				}
+			}
+			// FoldMapExcludingUpperLower(r): exactly the orbit members that are neither r's upper nor r's lower
+			// case (what Index adds to its two-byte candidate test for the needle's first two code points)
+			fx := strcase.VerifFoldMapExcludingUpperLower(r)
+			want := map[rune]bool{}
+			if r >= 0 && r <= unicode.MaxRune {
+				for _, m := range orbitOf(r) {
+					if m != wu && m != wl {
+						want[m] = true
+					}
+				}
+			}
+			got := map[rune]bool{}
+			for _, v := range fx {
+				if v != 0 {
+					got[v] = true
+				}
+			}
+			// (U+0130 and U+0131 list themselves: a member of r's own orbit is always admissible)
+			inOrbit := map[rune]bool{}
+			if r >= 0 && r <= unicode.MaxRune {
+				for _, m := range orbitOf(r) {
+					inOrbit[m] = true
+				}
+			}
+			bad := false
+			var stray rune = -1
+			for m := range got {
+				if !inOrbit[m] {
+					bad, stray = true, m
+				}
+			}
+			for m := range want {
+				if !got[m] {
+					bad = true
+				}
+			}
+			if bad {
+				if stray >= 0 && utf8.ValidRune(r) && utf8.ValidRune(stray) {
+					// the observable consequence: a two-code-point needle starting with r found at a code point outside r's orbit
+					hs, nd := string(stray)+"é", string(r)+"é"
+					x.finding(Finding{Kind: "table", Fn: "Index", Case: (&Case{Fn: "Index", S: []byte(hs), T: []byte(nd)}).line(),
+						Detail: fmt.Sprintf("FoldMapExcludingUpperLower(U+%04X) = %v contains U+%04X, which is not in the orbit %v: Index(%q, %q) = %d",
+							r, fx, stray, orbitOf(r), hs, nd, strcase.Index(hs, nd))})
+				} else {
+					r, fx, want := r, fx, want
+					later = append(later, func() {
+						x.tableFail(r, fx[0], fmt.Sprintf("FoldMapExcludingUpperLower=%v, orbit without upper/lower=%v", fx, want))
+					})
 				}
 			}
 			if !ok && r >= 0 && r <= unicode.MaxRune && len(orbitOf(r)) > 2 {
